@@ -569,6 +569,11 @@ class StructTree(Struct):
     def __init__(self, definition):  # pylint: disable=useless-super-delegation
         super().__init__(definition)
 
+    def has_default(self):
+        # The root of a struct tree is not a serializable subtype of itself, so
+        # there is no instance that could stand in for a missing value.
+        return False
+
 
 class Union(Composite):
     __slots__ = ("definition",)
